@@ -94,6 +94,11 @@ pub fn programs(tier: Tier) -> ProgramSet {
             }
         }
     }
+    for (spec, label) in scale_specs() {
+        let source = render_parse_module(&spec, &derives, call);
+        let aux = overlap_aux(&spec);
+        out.push(Program { idx: 0, label, k: 1, spec, aux, source });
+    }
     let mut ex = std::collections::BTreeMap::new();
     ex.insert("malformed (two defaults ..)".to_string(), excluded);
     ProgramSet {
